@@ -94,6 +94,19 @@ HARNESSES = [
          bound="block size 64 (root 4 entries, interior node 7), 1/4/5/28/29 (thorough: 50, two second-level nodes) leaf blocks: one-, two- and three-level trees; leaf hashes, "
                "inode numbers, hash version symbolic"),
 ]
+P5_UW = ["main.%d:130" % i for i in range(48)] + ["fix_problem.%d:18" % i for i in range(4)] + ["vf_bit.0:18", "vf_get_range.0:9",
+         "ext2fs_test_inode_bitmap_range.0:9", "vf_reset_record.0:18", "vf_reset_record.1:4", "ext2fs_bitcount.0:5", "ext2fs_bitcount.1:3", "ext2fs_bitcount.2:5",
+         "io_channel_discard.0:18"]
+HARNESSES.append(
+    dict(name="p5blocks", src="../C02/p5blocks.c", extra_src=["lib/ext2fs/blknum.c", "lib/ext2fs/bitops.c"],
+         funcs=["check_block_bitmaps", "print_bitmap_problem", "ext2fs_bg_free_blocks_count", "ext2fs_bg_free_blocks_count_set", "ext2fs_bg_flags_clear",
+                "ext2fs_free_blocks_count_set", "ext2fs_blocks_count", "ext2fs_bitcount"],
+         configs=[{"ANSWER": 1, "NG": 2, "DSZ": 32, "FDB": 1, "LAST": 5, "DISCARD": None}, {"ANSWER": 1, "NG": 2, "DSZ": 32, "FDB": 0, "LAST": 2},
+                  {"ANSWER": 1, "NG": 2, "DSZ": 32, "FDB": 1, "LAST": 5, "SECOND": None}],
+         unwind=4, unwindset=P5_UW + ["check_block_bitmaps.0:18", "check_block_bitmaps.1:2", "check_block_bitmaps.2:4"],
+         backends=["default", "kissat"],
+         bound="2 groups of 8 blocks (the last 5 / 2 long), first data block 1 / 0, every bit of both bitmaps, every descriptor byte, "
+               "superblock count, ro_compat and fs->flags symbolic; e2fsck -y, then flush + reload + second run"))
 MANIFEST = {
     "text": "Kernel-level slice (partial). Bounded-exhaustive: (1) the fix_problem() protocol over every entry of the real problem_table, every "
             "latch state and flag word: 'no' un-marks valid unless PR_NO_OK, 'yes' sets PROBLEMS_FIXED unless PR_NOT_A_FIX, -n never fixes and "
